@@ -403,10 +403,42 @@ func (vc *VC) dispatchCall2(st *State, call *ast.CallExpr, recv *Term, args []Te
 		vc.havocGhosts(st, vc.prog.GhostMods[key])
 	} else if vc.externalMayTouchRqlite(fn, call) {
 		vc.havocHeap(st, key)
+	} else if vc.externalValueOnly(fn, call) {
+		// a package-level library function given only numbers and strings holds no reference
+		// to any slice, map or box of the program: element arrays keep their contents
+		vc.havocLibraryFields(st)
 	} else {
 		vc.havocExternalHeap(st)
 	}
 	return vc.freshResults(st, call, fn.Name())
+}
+
+func (vc *VC) externalValueOnly(fn *types.Func, call *ast.CallExpr) bool {
+	if recvTypeOf(fn) != nil || fn.Pkg() == nil || !noHeapPkgs[fn.Pkg().Path()] {
+		return false
+	}
+	if call.Ellipsis.IsValid() {
+		return false
+	}
+	for _, a := range call.Args {
+		t := vc.typeOf(a)
+		if t == nil {
+			return false
+		}
+		if _, ok := types.Unalias(t).Underlying().(*types.Basic); !ok {
+			return false
+		}
+	}
+	return true
+}
+
+// havocLibraryFields: only fields / package variables of non-rqlite types change.
+func (vc *VC) havocLibraryFields(st *State) {
+	for _, n := range vc.sortedUniverse() {
+		if (strings.HasPrefix(n, "F$") || strings.HasPrefix(n, "G$")) && !isRqlitePkg(heapPkg[n]) && !heapStructVal[n] {
+			st.heap[n] = vc.fresh(n, vc.universe[n])
+		}
+	}
 }
 
 var callbackPkgs = map[string]bool{
@@ -718,6 +750,8 @@ func (vc *VC) contractCall(st *State, call *ast.CallExpr, c *FuncContract, fn *t
 	default:
 		if vc.externalMayTouchRqlite(fn, call) {
 			vc.havocHeap(st, c.Key)
+		} else if vc.externalValueOnly(fn, call) {
+			vc.havocLibraryFields(st)
 		} else {
 			vc.havocExternalHeap(st)
 		}
@@ -851,7 +885,7 @@ func (vc *VC) havocPattern(st *State, pat string) {
 		if isGhostName(n) {
 			continue
 		}
-		if (strings.HasSuffix(n, "$"+field) && (typ == "" || strings.Contains(n, typ+"$"))) || strings.HasPrefix(n, pat+"$") {
+		if (strings.HasSuffix(n, "$"+field) && (typ == "" || strings.Contains(n, typ+"$"))) || strings.HasPrefix(n, pat+"$") || n == pat {
 			st.heap[n] = vc.fresh(n, vc.universe[n])
 		}
 	}
@@ -1313,6 +1347,11 @@ func (vc *VC) callEffects(call *ast.CallExpr, ef *effects) {
 				ef.patterns = append(ef.patterns, sub.patterns...)
 				return
 			}
+		}
+		if !c.HasAssigns && vc.prog.Funcs[key] == nil && fn.Pkg() != nil && !isRqlitePkg(fn.Pkg().Path()) && !vc.externalMayTouchRqlite(fn, call) {
+			// library function with an assumed postcondition only: same heap effect as at its call
+			ef.heapExt = true
+			return
 		}
 		ef.heapAll = true
 		return
